@@ -307,3 +307,53 @@ func ZZ_C10_auth_assertion() {
 	zz.Assert(w.method == "private_key_jwt", "an assertion authenticates only a client registered for private_key_jwt")
 	zz.Cover("assertion:private_key_jwt-accepted", true)
 }
+
+// ZZ_C10_assertion_reconfigured: between two client assertions presented to one provider the server's token
+// endpoint URL is CHANGED and the client's registered key is ROTATED. The second assertion is judged by what is
+// in force when it is presented: only the new key's signature and an audience naming the token URL configured
+// NOW authenticate the client.
+func ZZ_C10_assertion_reconfigured() {
+	cfg := &Config{HashCost: 4, TokenURL: "https://as.example/token"}
+	store := &zzC10Store{clients: map[string]Client{}, jtis: map[string]time.Time{}}
+	f := &Fosite{Store: store, Config: cfg}
+	priv1, pub1 := zzjwt.GenKey(zzjwt.RSA)
+	priv2, pub2 := zzjwt.GenKey(zzjwt.RSA)
+	c3 := &DefaultOpenIDConnectClient{
+		DefaultClient:                     &DefaultClient{ID: "c3"},
+		TokenEndpointAuthMethod:           "private_key_jwt",
+		TokenEndpointAuthSigningAlgorithm: "RS256",
+		JSONWebKeys:                       &jose.JSONWebKeySet{Keys: []jose.JSONWebKey{zzjwt.JWK(pub1, "k1", "RS256", "sig")}},
+	}
+	store.clients["c3"] = c3
+	present := func(key interface{}, aud, jti string) error {
+		form := url.Values{"grant_type": {"client_credentials"}, "client_assertion_type": {clientAssertionJWTBearerType}}
+		form.Set("client_assertion", zzjwt.Sign(zzjwt.Spec{Alg: "RS256", Kid: "k1", Key: key, Claims: map[string]interface{}{
+			"iss": "c3", "sub": "c3", "aud": aud, "jti": jti, "exp": time.Now().Unix() + 300,
+		}}))
+		r := &http.Request{Method: "POST", Header: http.Header{}, PostForm: form, Form: form}
+		_, err := f.AuthenticateClient(context.Background(), r, form)
+		return err
+	}
+	zz.Assert(present(priv1, "https://as.example/token", "jti-first") == nil, "reconfigured: the first assertion (registered key, configured token URL) authenticates")
+	// the server moves, the client rotates its key (same kid)
+	cfg.TokenURL = "https://as2.example/token"
+	c3.JSONWebKeys = &jose.JSONWebKeySet{Keys: []jose.JSONWebKey{zzjwt.JWK(pub2, "k1", "RS256", "sig")}}
+	newKey := zz.Choice("signed-with-the-new-key", 2) == 1
+	key := interface{}(priv1)
+	if newKey {
+		key = priv2
+	}
+	aud := zz.String("aud", 27)
+	err := present(key, aud, "jti-second")
+	zz.Observe("second.authenticated", err == nil)
+	if err == nil {
+		zz.Assert(newKey, "reconfigured: only the key registered NOW authenticates the client")
+		zz.Assert(aud == "https://as2.example/token", "reconfigured: only an assertion addressed to the token URL configured NOW authenticates")
+		zz.Cover("reconfigured:accepted", true)
+	} else {
+		zz.Assert(zzC10ErrOK(err), "reconfigured: rejection is invalid_client or invalid_request")
+		zz.Assert(zz.Not(zz.And(newKey, aud == "https://as2.example/token")), "reconfigured: the new key with the new audience authenticates")
+		zz.Cover("reconfigured:old-key-refused", !newKey)
+		zz.Cover("reconfigured:old-audience-refused", newKey)
+	}
+}
